@@ -179,3 +179,16 @@ Theorem C19_arguments_name_overrides_annotation :
            None (fun _ => true) true MStream (MItems [ERoute [Tag [x61]]]) = Ran 1 [VComposite] (Delivered DAsIs).
 Proof. exact name_overrides_annotation. Qed.
 Print Assumptions C19_arguments_name_overrides_annotation.
+
+(* The dispatch tables the model uses ARE the ones in the source: regenerated on every run
+   (gen/GenRouting.v, from the dict literal, the if/elif chain, the decorators and the except clauses). *)
+From RSV Require Import gen.GenRouting proofs.RoutingGenTie.
+Theorem C19_tables_from_source :
+  map (fun p => (fst p, slot_code (snd p))) route_map_by_frame_type = gen_route_map /\
+  map (fun p => (fst p, ufield_code (snd p))) unknown_route_chain = gen_unknown_chain /\
+  map (fun d => (deco_code d, slot_code (deco_slot d))) all_decos = gen_deco_slot /\
+  map (fun d => (deco_code d, ufield_code (deco_unknown d))) all_decos = gen_deco_unknown /\
+  map (fun m => (meth_code m, meth_frame_type m, errkind_code (meth_error m), meth_returns m)) all_meths = gen_meth_table /\
+  wrap_frame_type = gen_wrap_frame_type.
+Proof. exact routing_tables_match_source. Qed.
+Print Assumptions C19_tables_from_source.
